@@ -107,19 +107,19 @@ theorem ids_map_finish (cfg : Cfg) (id : Nat) (q : List (Nat × Option Res)) :
     rw [ih]; split <;> rfl
 
 theorem step_good {cfg : Cfg} {arr popped : List Nat} {s : St} (g : Good cfg arr popped s) (e : Ev) :
-    ∃ p, Good cfg (arr ++ arrivals [e]) (popped ++ p) (step cfg s e) := by
+    ∃ popped', Good cfg (arrStep arr e) popped' (step cfg s e) := by
   cases e with
   | arrive id =>
-    refine ⟨[], ?_⟩
-    simp only [step, arrivals, List.append_nil]
+    refine ⟨popped, ?_⟩
+    simp only [step, arrStep]
     refine ⟨by simp only [ids, List.map_append, List.map_cons, List.map_nil]; rw [g.split]; simp [ids], g.log, g.layer, ?_⟩
     intro e he
     rcases List.mem_append.1 he with h | h
     · exact g.entries e h
     · simp at h; subst h; exact Or.inl rfl
   | finish id =>
-    refine ⟨[], ?_⟩
-    simp only [step, arrivals, List.append_nil]
+    refine ⟨popped, ?_⟩
+    simp only [step, arrStep]
     refine ⟨by rw [ids_map_finish]; exact g.split, g.log, g.layer, ?_⟩
     intro e he
     obtain ⟨e0, h0, rfl⟩ := List.mem_map.1 he
@@ -128,30 +128,36 @@ theorem step_good {cfg : Cfg} {arr popped : List Nat} {s : St} (g : Good cfg arr
     · exact g.entries e0 h0
   | poll =>
     obtain ⟨p, hp, _⟩ := poll_good g
-    exact ⟨p, by simpa [step, arrivals] using hp⟩
+    exact ⟨popped ++ p, by simpa [step, arrStep] using hp⟩
+  | clear =>
+    exact ⟨[], ⟨rfl, rfl, rfl, fun e h => by simp [step] at h⟩⟩
 
-theorem arrivals_append (a b : List Ev) : arrivals (a ++ b) = arrivals a ++ arrivals b := by
-  induction a with
-  | nil => rfl
-  | cons e es ih => cases e <;> simp [arrivals, ih]
+/-- a `finish` pops nothing -/
+theorem finish_good {cfg : Cfg} {arr popped : List Nat} {s : St} (g : Good cfg arr popped s) (id : Nat) :
+    Good cfg arr popped (step cfg s (.finish id)) := by
+  refine ⟨by simp only [step]; rw [ids_map_finish]; exact g.split, g.log, g.layer, ?_⟩
+  intro e he
+  obtain ⟨e0, h0, rfl⟩ := List.mem_map.1 he
+  split
+  · rename_i hid; right; simp [hid]
+  · exact g.entries e0 h0
+
+theorem arrivals_append (a b : List Ev) : arrivals (a ++ b) = b.foldl arrStep (arrivals a) := by
+  simp [arrivals, List.foldl_append]
 
 theorem foldl_good {cfg : Cfg} (evs : List Ev) {arr popped : List Nat} {s : St} (g : Good cfg arr popped s) :
-    ∃ p, Good cfg (arr ++ arrivals evs) (popped ++ p) (evs.foldl (step cfg) s) := by
+    ∃ popped', Good cfg (evs.foldl arrStep arr) popped' (evs.foldl (step cfg) s) := by
   induction evs generalizing arr popped s with
-  | nil => exact ⟨[], by simpa [arrivals] using g⟩
+  | nil => exact ⟨popped, g⟩
   | cons e evs ih =>
     obtain ⟨p1, g1⟩ := step_good g e
-    obtain ⟨p2, g2⟩ := ih g1
-    refine ⟨p1 ++ p2, ?_⟩
-    have : arrivals (e :: evs) = arrivals [e] ++ arrivals evs := arrivals_append [e] evs
-    simpa [this, List.append_assoc] using g2
+    exact ih g1
 
 theorem good_init (cfg : Cfg) : Good cfg [] [] {} :=
   ⟨rfl, rfl, rfl, fun e h => by simp at h⟩
 
-theorem run_good (cfg : Cfg) (evs : List Ev) : ∃ popped, Good cfg (arrivals evs) popped (run cfg evs) := by
-  obtain ⟨p, g⟩ := foldl_good evs (good_init cfg)
-  exact ⟨p, by simpa [run] using g⟩
+theorem run_good (cfg : Cfg) (evs : List Ev) : ∃ popped, Good cfg (arrivals evs) popped (run cfg evs) :=
+  foldl_good evs (good_init cfg)
 
 /-! ### polling drains finished handles -/
 def AllFinished (q : List (Nat × Option Res)) : Prop := ∀ e ∈ q, e.2.isSome = true
